@@ -322,12 +322,12 @@ class Piece:
     """Extracted region + mechanical transforms + spec insertions."""
 
     def __init__(self, region, drop_comments=True, drop_attrs=(), drop_tokens=(), rewrite_asserts=False, keep_attrs=False,
-                 renames=(), drop_blocks=(), error_blocks=(), drop_calls=()):
+                 renames=(), drop_blocks=(), error_blocks=(), drop_calls=(), format_standin=False):
         self.region = region
         self.transforms = []
         self.params = dict(drop_comments=drop_comments, drop_attrs=tuple(drop_attrs), drop_tokens=tuple(drop_tokens),
                            rewrite_asserts=rewrite_asserts, renames=tuple(renames), drop_blocks=tuple(drop_blocks), error_blocks=tuple(error_blocks),
-                           drop_calls=tuple(drop_calls))
+                           drop_calls=tuple(drop_calls), format_standin=format_standin)
         self.base = self._transform(region.text)
         self.inserts = []  # (offset in base, text, label)
 
@@ -387,6 +387,26 @@ class Piece:
                 n += 1
             if n:
                 self.transforms.append("%d statement(s) `%s..);` dropped (logging only)" % (n, head))
+        if p["format_standin"]:
+            # every `format!( .. )` (message construction; format! is outside Verus) becomes a call of a stand-in `verif_format()`
+            n = 0
+            while True:
+                i = t.find("format!(")
+                if i < 0:
+                    break
+                depth, j = 0, i + len("format!")
+                while j < len(t):
+                    if t[j] == "(":
+                        depth += 1
+                    elif t[j] == ")":
+                        depth -= 1
+                        if depth == 0:
+                            break
+                    j += 1
+                t = t[:i] + "verif_format()" + t[j + 1:]
+                n += 1
+            if n:
+                self.transforms.append("%d `format!(..)` expression(s) replaced by the stand-in `verif_format()` (message text only)" % n)
         for head, replacement in p["error_blocks"]:
             # a block that only builds an error message and returns it: its body is replaced by a canonical error return,
             # after checking syntactically that its last statement is a `return` of `Err(..)` values only
